@@ -14,9 +14,12 @@ Open Scope list_scope.
 (* ------------------------------------------------------------------ functions *)
 (* A ScalarFunction / VectorFunction as the constructor sees it.  [f_id] names its
    Python == class (the harness assigns ids from the real objects' ==, which for these
-   classes looks at the class and the name only), [f_name] is str(f), [f_vec] tells a
-   VectorFunction, [f_ldim] is f.ldim (used by range(u.ldim)). *)
-Record fn := mkFn { f_id : nat; f_name : string; f_vec : bool; f_ldim : nat }.
+   classes looks at the class and the name only), [f_space] names its function space
+   (object identity), [f_name] is str(f), [f_vec] tells a VectorFunction, [f_ldim] is
+   f.ldim (used by range(u.ldim)). *)
+Record fn := mkFn { f_id : nat; f_space : nat; f_name : string; f_vec : bool; f_ldim : nat }.
+(* Python's == on functions, used by `in` and list.index: the space is not looked at
+   (finding C18-F1: a function of another space with the name of an unknown is == to it) *)
 Definition fn_eqb (a b : fn) : bool := Nat.eqb (f_id a) (f_id b).
 
 (* ------------------------------------------------------------ left-hand sides *)
@@ -42,7 +45,7 @@ Fixpoint list_beq {A} (f : A -> A -> bool) (l1 l2 : list A) : bool :=
   end.
 
 Definition fn_beq (a b : fn) : bool :=
-  Nat.eqb (f_id a) (f_id b) && String.eqb (f_name a) (f_name b) &&
+  Nat.eqb (f_id a) (f_id b) && Nat.eqb (f_space a) (f_space b) && String.eqb (f_name a) (f_name b) &&
   Bool.eqb (f_vec a) (f_vec b) && Nat.eqb (f_ldim a) (f_ldim b).
 
 (* structural equality of expression objects (sympy's == on trees) *)
@@ -418,7 +421,7 @@ Definition form_beq (a b : form) : bool :=
 
 (* helpers of the generated case files *)
 Definition dummy_bc : ebc :=
-  mkBC (EInt 0%Z) "" BNone (mkAttrs 0 (mkFn 0 "" false 0) false None) None.
+  mkBC (EInt 0%Z) "" BNone (mkAttrs 0 (mkFn 0 0 "" false 0) false None) None.
 Definition obj (r : res ebc) : ebc := match r with Ok b => b | Err _ => dummy_bc end.
 
 (* eq.bc as an observer reads it (None when the argument was empty) *)
